@@ -183,9 +183,17 @@ func (mo *Monitor) AfterBlock(b *forge.Block) error {
 		r.Count("events_"+ev.Prop, 1)
 		r.Seen("event_kinds", ev.Kind+"@"+er)
 	}
+	// input addresses of batches that were considered in this block without taking effect (rejected,
+	// dropped, or newly held): any change on them is a funds / admission / conversion matter too
 	rejectedAddrs := map[factom.FAAddress]bool{}
+	convAddrs := map[factom.FAAddress]bool{}
 	for _, o := range x.Outcomes {
-		_ = o
+		if o.Code <= 0 {
+			rejectedAddrs[o.Addr] = true
+			if o.HasConv {
+				convAddrs[o.Addr] = true
+			}
+		}
 	}
 	nm := 0
 	if !skipAll {
@@ -216,6 +224,10 @@ func (mo *Monitor) AfterBlock(b *forge.Block) error {
 				}
 				if rejectedAddrs[a] {
 					props["C03"] = true
+				}
+				if convAddrs[a] {
+					props["C13"] = true
+					props["C07"] = true
 				}
 				if mo.sigPrefix != "" {
 					props["C11"] = true
@@ -413,6 +425,10 @@ func (mo *Monitor) AfterBlock(b *forge.Block) error {
 		}
 		if o.Dropped {
 			// recorded finding: the batch has no effect (checked through balances) but its status stays pending forever
+			if executed != 0 {
+				mo.add([]string{"C13", "C17", "C07"}, fmt.Sprintf("unconvertible-batch-not-dropped observed=%s era=%s", codeClass(executed, h), er),
+					fmt.Sprintf("block %d (%s): batch %s cannot be converted (%s) and must have no effect, but the daemon recorded status %d", h, er, o.Hash, o.Note, executed), c)
+			}
 			if executed == 0 {
 				mo.add([]string{"C17"}, "status-pending-forever unconvertible-batch", fmt.Sprintf("block %d: batch %s was considered and dropped (%s) but its status stays 0 = pending although it will never be considered again", h, o.Hash, o.Note), c)
 			}
